@@ -270,13 +270,9 @@ Definition order_determined (n : nat) (g : list triple) (q : query) (vs : list n
         | _ => true
         end) sols) sols.
 
-(** [n] = number of variables of the query *)
-Definition spec_select (n : nat) (U : list term) (S : list str) (ds order : list itriple) (q : query) (o : qobs) : bool :=
-  let g := map (utriple U) ds in
-  match o with
-  | QErr => false
-  | QRows oc orows =>
-      let rows := map (map (decode_cell S)) orows in
+(** [n] = number of variables of the query; [g] the stored triples; [oc], [rows] the columns and
+    rows of an answer *)
+Definition spec_rows (n : nat) (g : list triple) (q : query) (oc : list Z) (rows : list row) : bool :=
       let cols_ok :=
           match q_proj q with
           | ProjStar => forallb (fun c => 0 <=? c) oc && nat_set_eqb (zcols oc) (in_scope (q_pat q))
@@ -304,7 +300,19 @@ Definition spec_select (n : nat) (U : list term) (S : list str) (ds order : list
                                    (map (map render_rcell)
                                         (snd (eval_query n g (Query (q_distinct q') (q_proj q') (q_pat q') (q_order q') None None))))) rows
           else bag_eqb rows expected
-      end
+      end.
+
+Definition spec_select (n : nat) (U : list term) (S : list str) (ds order : list itriple) (q : query) (o : qobs) : bool :=
+  match o with
+  | QErr => false
+  | QRows oc orows => spec_rows n (map (utriple U) ds) q oc (map (map (decode_cell S)) orows)
+  end.
+
+(** does the engine model itself return what the algebra defines on this data set and query? *)
+Definition select_agrees (n : nat) (ds : list triple) (q : query) : bool :=
+  match run_select (store_of ds) q with
+  | Done (cols, rows) => spec_rows n ds q (map Z.of_nat cols) rows
+  | _ => false
   end.
 
 (** ** updates: the observed set of triples afterwards *)
@@ -483,8 +491,7 @@ Definition k_update (ts : list triple) : bool :=
   existsb (fun t => has_blank t || negb (triple_eqb (conv_triple t) t)) ts.
 
 (** the first class (1..8) that applies to a failing SELECT, 0 when none does *)
-Definition k_class (n : nat) (U : list term) (S : list str) (ds order : list itriple) (q : query) (o : qobs) : Z :=
-  let g := map (utriple U) ds in
+Definition k_class_g (n : nat) (g : list triple) (q : query) : Z :=
   if k_repvar q then 2
   else if k_union q then 6
   else if k_const q then 4
@@ -494,6 +501,8 @@ Definition k_class (n : nat) (U : list term) (S : list str) (ds order : list itr
   else if k_order n g q then 8
   else if k_distinct n g q then 1
   else 0.
+Definition k_class (n : nat) (U : list term) (S : list str) (ds order : list itriple) (q : query) (o : qobs) : Z :=
+  k_class_g n (map (utriple U) ds) q.
 Definition k_is (c : Z) (n : nat) (U : list term) (S : list str) (ds order : list itriple) (q : query) (o : qobs) : bool :=
   k_class n U S ds order q o =? c.
 Definition k_upd (U : list term) (ds : list itriple) (u_ts : list itriple) (ins ok : bool) (after : list itriple) : bool :=
